@@ -122,3 +122,34 @@ func checkC02(c *Ctx) {
 	c.guard(p, "C02.guard", "Validate rejects the identity", blsVal, GuardSpec{Assumes: []Assume{calleeAssume(latTrue, -1, "(*ecc/bls12381.G1).IsIdentity", "(*ecc/bls12381.G2).IsIdentity")}})
 	c.guard(p, "C02.guard", "Validate requires subgroup membership", blsVal, GuardSpec{Assumes: []Assume{calleeAssume(latFalse, -1, "(*ecc/bls12381.G1).IsOnG1", "(*ecc/bls12381.G2).IsOnG2")}})
 }
+
+// BLS: the length of a key / signature encoding must be the one its own header announces (the group
+// decoders ignore trailing bytes, so "one of the two legal lengths" is not enough)
+func init() {
+	prev := registry["C02"]
+	registry["C02"] = func(c *Ctx) {
+		prev(c)
+		p := c.Prog("amd64")
+		if p == nil {
+			return
+		}
+		f := p.Func("sign/bls", "", "checkLen")
+		flag := func(v int64) []ValAssume {
+			return []ValAssume{{Name: "compression flag b[0]&0x80", Val: latInt(v), Match: func(x ssa.Value, in *ssa.Function) bool {
+				b, ok := x.(*ssa.BinOp)
+				if !ok || in != f || b.Op != token.AND {
+					return false
+				}
+				k, ok := b.Y.(*ssa.Const)
+				return ok && k.Value != nil && k.Value.ExactString() == "128"
+			}}}
+		}
+		args := func(n int64) map[string]lat {
+			return map[string]lat{"b": latSliceLen(n), "compressed": latInt(48), "uncompressed": latInt(96)}
+		}
+		c.evalAcceptRuleSpec(p, "C02.len", "a compressed encoding (flag set) of the uncompressed length is refused", f, args(96), nil, flag(128), false, succNilErr(0))
+		c.evalAcceptRuleSpec(p, "C02.len", "an uncompressed encoding (flag clear) of the compressed length is refused", f, args(48), nil, flag(0), false, succNilErr(0))
+		c.evalAcceptRuleSpec(p, "C02.len", "a compressed encoding of the compressed length is accepted", f, args(48), nil, flag(128), true, succNilErr(0))
+		c.evalAcceptRuleSpec(p, "C02.len", "an uncompressed encoding of the uncompressed length is accepted", f, args(96), nil, flag(0), true, succNilErr(0))
+	}
+}
